@@ -42,6 +42,9 @@ def gov_py(kind, g):
     return tuple(g) if kind == 'OID' else g
 
 
+LAST = {}
+
+
 def make_schema(case, override=False):
     """-> (container schema, {gov -> inner schema}, override map or None)"""
     gk = case['gov_kind']
@@ -92,6 +95,7 @@ def make_schema(case, override=False):
         namedtype.NamedType('zs', univ.SequenceOf(componentType=univ.Integer()).subtype(
             implicitTag=ptag.Tag(ptag.tagClassContext, ptag.tagFormatConstructed, 10)))))
     tmap.update(entries)
+    LAST['tmap'] = tmap
     if case.get('wrap_choice'):
         # the container is the alternative of an explicitly tagged CHOICE (decode options must travel through it)
         sch = univ.Choice(componentType=namedtype.NamedTypes(namedtype.NamedType('c', sch), namedtype.NamedType('n', univ.Null()))).subtype(
@@ -111,6 +115,7 @@ def run_case(case):
     except error.PyAsn1Error as e:
         F('schema', 'raises', 'building the open type schema raised %s' % harness.exc_sig(e), harness.exc_sig(e))
         return fails
+    own_tmap = LAST.get('tmap')
     g = gov_py(gk, case['gov'])
     Tin = case['inner_type']
     vals = case['inner_values']
@@ -263,6 +268,39 @@ def run_case(case):
                     got = bytes(fld.asOctets())
                     if got != raw[i]:
                         F(sub, 'octets', 'field holds %s, encode(inner) is %s | e=%s' % (got.hex()[:60], raw[i].hex()[:60], e.value.hex()[:120]))
+        # the default map is the caller's dict, "stored by reference and can be mutated later": after it served a decoding it is
+        # edited WITHOUT changing its size - the mapping of the governing value dropped and an unrelated one added; then the
+        # governing value bound to a type the payload cannot be - and each time the next decoding goes by the map as it is now
+        if mapped and not case.get('gov_absent') and cname == CODECS[0][0] and not case.get('second'):
+            keycls = univ.ObjectIdentifier if gk == 'OID' else univ.Integer
+            tmap = own_tmap
+            key = next((k for k in tmap if (tuple(k) == g if gk == 'OID' else int(k) == g)), None) if tmap is not None else None
+            if key is not None:
+                old = tmap[key]
+                other = keycls((1, 3, 6, 9998, 7) if gk == 'OID' else 9998)
+                try:
+                    lib.decode(codec, e.value, sch, decodeOpenTypes=True)
+                    del tmap[key]
+                    tmap[other] = univ.Null()
+                    d = lib.decode(codec, e.value, sch, decodeOpenTypes=True)
+                    if not d.ok:
+                        F('edited-map-' + cname, 'decode-raises', 'after the mapping was dropped: %s | e=%s' % (d.brief(), e.value.hex()[:120]), d.sig)
+                    else:
+                        r = d.value['c'] if case.get('wrap_choice') else d.value
+                        flds = [r['blob'][i] for i in range(len(r['blob']))] if is_of else [r['blob']]
+                        if any(not isinstance(x, univ.Any) for x in flds):
+                            F('edited-map-' + cname, 'stale-map', 'the mapping of the governing value was dropped from the map (another one added), the field is still '
+                              'decoded as %s | e=%s' % (type(flds[0]).__name__, e.value.hex()[:120]))
+                    del tmap[other]
+                    tmap[key] = univ.Integer().subtype(implicitTag=ptag.Tag(ptag.tagClassPrivate, ptag.tagFormatSimple, 12345))
+                    d = lib.decode(codec, e.value, sch, decodeOpenTypes=True)
+                    if d.ok and vals:
+                        F('edited-map-' + cname, 'stale-map', 'the governing value was re-bound to [PRIVATE 12345] INTEGER, the payload is still accepted | e=%s' % e.value.hex()[:120])
+                    elif not d.ok and d.status == 'leak':
+                        F('edited-map-' + cname, 'leak', d.brief(), d.sig)
+                finally:
+                    tmap.pop(other, None)
+                    tmap[key] = old
     return fails
 
 
